@@ -320,6 +320,70 @@ def check(ctx, rep: Report):
     for b_ in bad:
         rep.violate(Violation("C17.LIVE", f"C17.LIVE|_by_index|{b_[:50]}", f"advertised keyword `_by_index`: {b_}", "", "SequenceMutator._extractor"))
 
+    # ---- LIVE (pairs): transform(_transform=f, attr=g) / update(_new_value, attr=v): both keyword groups take effect together
+    from ..runs import run_function
+    from ..values import ARG, RECV, Const, Sym
+    mv = ctx.p.find_function("mutate_value")
+
+    def conf_mv(cfg):
+        cfg.record_decisions = True
+        cfg.user_may_raise = False
+        cfg.loop_unroll = 1
+        cfg.stubs.pop("mutate_value", None)
+    kw = {"old_value": Sym(("old",), {RECV}, tags={"nonsentinel"}), "transform": Sym(("transform",), {ARG}),
+          "attr_transforms": Sym(("attr_transforms",), {ARG}), "attrs": Sym(("attrs",), {ARG}), "inplace": Const(False)}
+    missing = [k for k in kw if k not in [a.arg for a in mv.node.args.args + mv.node.args.kwonlyargs]]
+    if missing:
+        raise AnalysisError(f"C17.LIVE: mutate_value no longer takes {missing}")
+    it, outs = run_function(ctx.p, ctx.H, mv, [], kw, configure=conf_mv)
+    rep.functions |= set(it.functions_entered)
+    rep.evaluations += len(outs)
+    seen = {"transform": False, "attr_transforms": False, "attrs": False}
+    combos = set()
+    for o in outs:
+        if o.kind != "ok":
+            continue
+        d = {k[1][0]: v for k, v in o.state.decisions if k[0] == "truthy" and len(k[1]) == 1 and k[1][0] in seen}
+        eff = set()
+        for e in o.state.trace:
+            if e[0] == "U" and e[1] == "transform":
+                eff.add("transform")
+            if e[0] == "U" and str(e[1]).startswith("attr_transforms/"):
+                eff.add("attr_transforms")
+            if e[0] == "W" and "attrs/" in str(e[4]):
+                eff.add("attrs")
+        given = frozenset(k for k, v in d.items() if v)
+        combos.add((given, frozenset(eff)))
+    bad = []
+    for pair in (("transform", "attr_transforms"), ("attrs", "transform"), ("attrs", "attr_transforms")):
+        ok = any(set(pair) <= g and set(pair) <= e for g, e in combos)
+        if not ok:
+            bad.append(f"when both `{pair[0]}` and `{pair[1]}` are given, no path applies both: one of the two advertised keyword groups is silently ignored")
+    if not combos:
+        raise AnalysisError("C17.LIVE: mutate_value produced no normal path")
+    rep.oblige("C17.LIVE", "mutate_value keyword groups are independent", not bad, "; ".join(bad))
+    for b_ in bad:
+        rep.violate(Violation("C17.LIVE", f"C17.LIVE|pair|{b_[:60]}", f"mutate_value: {b_}", f"{mv.module.relpath}:{mv.node.lineno}", "mutate_value"))
+
+    # ---- MEMO: the constructor-argument memo depends on the constructor only, never on the keywords of one call
+    gfa = ctx.p.find_function("_get_function_args")
+
+    def conf_gfa(cfg):
+        cfg.user_may_raise = False
+        cfg.loop_unroll = 1
+        cfg.stubs.pop("_get_function_args", None)
+    it, outs = run_function(ctx.p, ctx.H, gfa, [Sym(("function",), {ARG}), Sym(("attrs",), {ARG})], {}, configure=conf_gfa)
+    rep.functions |= set(it.functions_entered)
+    rep.evaluations += len(outs)
+    memo_w = [e for o in outs for e in o.state.trace if e[0] == "W" and e[2] == "function"]
+    bad = sorted({f"`{ctx.p.stmt_at(e[-1])[1]}` memoises a value computed from this call's keywords (`{e[5]}`) on the constructor: later calls with other keywords get the first call's answer"
+                  for e in memo_w if "attrs" in str(e[5])})
+    if not memo_w:
+        rep.notes.append("C17.MEMO: _get_function_args keeps no memo on the constructor")
+    rep.oblige("C17.LIVE", "_get_function_args memo is call-independent", not bad, "; ".join(bad))
+    for b_ in bad:
+        rep.violate(Violation("C17.LIVE", f"C17.LIVE|memo|{b_[:60]}", f"_get_function_args: {b_}", f"{gfa.module.relpath}:{gfa.node.lineno}", "_get_function_args"))
+
     # ---- REACH: keywords advertised by __init__ (all init-enabled attributes of the class, inherited ones included)
     # reach a constructor that applies them: parent constructors must span the whole MRO (shared with C09.PAR)
     rep.rules["C17.REACH"] = "every advertised constructor keyword reaches the constructor of the class that owns the attribute"
